@@ -103,7 +103,7 @@ Fixpoint pool_ok (ds : list dnode) (n : nat) : bool :=
 
 (* fresh operations must leave every earlier pool entry as it was *)
 Definition is_fresh (o : op) : bool :=
-  match o with OCopy _ _ | OCopyWhole _ | OReplace _ _ _ _ | OPrefix _ _ => true | _ => false end.
+  match o with OCopy _ _ | OCopyWhole _ | OReplace _ _ _ _ | OPrefix _ _ | OCopyPruned _ _ => true | _ => false end.
 Definition inputs_kept (o : op) (before after : list dnode) : bool :=
   if is_fresh o then dumps_eqb (firstn (List.length before) after) before else true.
 
